@@ -159,6 +159,25 @@ static void fam_arm64_all(void) {
 	free(buf);
 }
 
+// ------------------------------------------------------------------------------------------------ x86, a different window size for each of the first four calls
+// 24-byte inputs: a prefix, an E8 whose operand is convertible or not, filler, a second E8 placed so that a window may end exactly on it. Every combination of four input
+// windows and four output windows over small sizes (then the rest in one go), encoder and decoder (mock next filter), against the unsliced result.
+static void fam_x86_phases(void) {
+	const filt *f = filt_by_kind(RB_X86); static const unsigned char IW[] = { 1, 2, 5, 9 }, OW[] = { 2, 3, 4, 9 };
+	uint8_t x[24], exp_e[24], exp_d[24]; long idx = 0;
+	for (int p1 = 0; p1 < 10; p1++) for (int m1 = 0; m1 < 2; m1++) for (int gap = 1; gap <= 6; gap++) for (int m2 = 0; m2 < 2; m2++) {
+		if (p1 + 5 + gap + 5 > 24) continue; if ((idx++ % nshards) != shard) continue;
+		for (int i = 0; i < 24; i++) x[i] = (uint8_t)(0x10 + i * 7); x[p1] = 0xE8; x[p1 + 4] = m1 ? 0x00 : 0x7F; int p2 = p1 + 4 + gap; x[p2] = 0xE8; x[p2 + 4] = m2 ? 0xFF : 0x33;
+		cur_f = f; cur_param = 0; cur_x = x; cur_n = 24; n_evals++;
+		if (int_run(f, 1, 0, x, 24, exp_e, &WHOLE, NULL, 0, 0) || int_run(f, 0, 0, x, 24, exp_d, &WHOLE, NULL, 0, 0)) { report("coder-failed", f, "enc", 0, x, 24, "unsliced run failed"); continue; }
+		if (memcmp(exp_e, x, 24) || memcmp(exp_d, x, 24)) { n_nontrivial++; n_distinct++; }
+		for (int code = 0; code < 65536; code++) { sched s = WHOLE; s.nplan = 4; for (int k = 0; k < 4; k++) { s.in_plan[k] = IW[(code >> (2 * k)) & 3]; s.out_plan[k] = OW[(code >> (8 + 2 * k)) & 3]; }
+			if (!thorough && ((code >> 4) ^ code) % 7 != (int)((unsigned)(p1 + gap) % 7)) continue;	// quick: every 7th schedule per input, a different residue for different inputs
+			for (int enc = 1; enc >= 0; enc--) { uint8_t t[32]; int r = int_run(f, enc, 0, x, 24, t, &s, NULL, 0, 0);
+				if (r || memcmp(t, enc ? exp_e : exp_d, 24)) { char sn[160], dt[200]; sched_name(&s, sn, sizeof sn); if (!r) diff_text(dt, sizeof dt, "sliced", t, "unsliced", enc ? exp_e : exp_d, 24); report("slicing:per-call-windows", f, enc ? "enc" : "dec", 0, x, 24, "%s: %s", sn, r ? RN[r] : dt); goto next_input; } } }
+	next_input:; if (h_expired()) return; }
+}
+
 // ------------------------------------------------------------------------------------------------ x86
 static const uint8_t XA[5] = { 0xE8, 0xE9, 0x00, 0xFF, 0x7F };
 static void fam_x86(void) {
@@ -614,6 +633,7 @@ static int run_family(const char *name) {
 	if (!strcmp(name, "delta-strings")) { fam_delta_strings(); return 1; }
 	if (!strcmp(name, "align")) { fam_align(); return 1; }
 	if (!strcmp(name, "reuse")) { fam_reuse(); return 1; }
+	if (!strcmp(name, "x86-phases")) { fam_x86_phases(); return 1; }
 	if (!strcmp(name, "public")) { fam_public(); return 1; }
 	if (!strcmp(name, "public-san")) { public_thin = 8; fam_public(); return 1; }
 	if (!strcmp(name, "public-batch")) { fam_public_batch(); return 1; }
